@@ -198,11 +198,12 @@ def def_(name, func, context):
         yaql> def(sq, $*$) -> [1, 2, 3].select(sq($))
         [1, 4, 9]
     """
-    @specs.name(name)
     def wrapper(*args, **kwargs):
         return func(*args, **kwargs)
 
-    context.register_function(wrapper)
+    # the name is the one written in the expression, not a Python identifier
+    # to be translated by the naming convention
+    context.register_function(wrapper, name=name.rstrip('_'))
     return context
 
 
